@@ -276,10 +276,6 @@ def _need_pos_denominator(d):
     from .vq import REG
     c = _ctx()
     if c.prove_positive(d):
-        for i in d.at:
-            t, _ = REG.atoms[i]
-            REG.atoms[i] = (t, True)
-        d._pos = None
         return
     raise EncodingGap("division by a term that is not provably positive")
 
